@@ -84,7 +84,8 @@ def engineCase (inp impl : String) : CaseOut :=
           let target := engPool addr (t.toNat?.getD 9)
           let sender := if s = "-" then none else engPool addr (s.toNat?.getD 9)
           let st := { st with nsend := st.nsend + 1 }
-          let (obs, evs) := deliver st target s!"m{st.nsend}" sender
+          -- every fifth message is a nil message value
+          let (obs, evs) := deliver st target (if st.nsend % 5 = 0 then "nil" else s!"m{st.nsend}") sender
           let (st', obs2) := evs.foldl (fun (a : EngSt × List String) ev => let (s', o) := esEvent a.1 ev; (s', a.2 ++ o)) (st, [])
           let tag := match send (mkEng st) target 0 sender with
             | .nothing => "send.nil" | .enqueue _ => "send.local" | .remoteSend _ => "send.remote"
